@@ -135,7 +135,18 @@ def encodings(d):
 
 
 # ---------------------------------------------------------------- generation
+UTF8_SEQS = [b"\xc3\xa9", b"\xe2\x82\xac", b"\xd0\xb6", b"\xc3\x9f", b"\xe4\xb8\xad"]
+
+
 def gen_text(rng):
+    if rng.chance(1, 12):
+        # valid UTF-8 as a whole, with 2- and 3-byte characters (wide = every BYTE followed by NUL, not UTF-16)
+        parts = []
+        for _ in range(rng.range(1, 4)):
+            parts.append(rng.bytes(rng.range(0, 3), b"cafeCAFE xyz"))
+            parts.append(rng.choice(UTF8_SEQS))
+        parts.append(rng.bytes(rng.range(0, 2), b"abc"))
+        return b"".join(parts)[:40]
     kind = rng.below(12)
     n = rng.choice([1, 2, 3, 4, 4, 5, 5, 6, 7, 8, 10, 13, 17, 24, 40, rng.range(1, 40)])
     if kind == 0:       # repeated byte (overlapping occurrences, uniform atoms)
@@ -359,7 +370,7 @@ class C01(Prop):
     HARNESS_BINS = ("scan",)
     KF = {}
     RULE = ("one text string per case: text classes (repeated byte, periodic, self-overlapping, all lower/upper, NULs, "
-            "already-wide, arbitrary bytes, common bytes 00/20/CC/FF) x lengths 1..40 x every legal modifier shape "
+            "already-wide, arbitrary bytes, common bytes 00/20/CC/FF, valid UTF-8 with 2- and 3-byte characters) x lengths 1..40 x every legal modifier shape "
             "(ascii/wide/both x nocase x fullword; xor single key / sub-range / 0-255 / upper half / case-flipping "
             "keys; base64 / base64wide / both with standard, permuted, non-injective, 2-symbol and arbitrary "
             "alphabets), both compiler profiles (DFA / contiguous NFA), match_max_length in {0,1,3,512}. Inputs are "
